@@ -1,6 +1,6 @@
 From RsdnsModel Require Import Base Cursor Names Labels.
 From RsdnsModel.Spec Require Import WireName.
-From RsdnsModel.Proofs Require Import CursorSafe LabelsTotal LabelsSound LabelsComplete.
+From RsdnsModel.Proofs Require Import CursorSafe LabelsTotal LabelsSound LabelsComplete SpecExec.
 From RsdnsModel.Properties Require Import C03.
 Open Scope N_scope.
 Check (C03_read_sound : forall msg nk c t c',
@@ -30,4 +30,8 @@ Check (C03_skip_complete : forall msg c ls,
   cwf msg c -> expands (vis msg c) None 0 (pos c) ls ->
   Forall (fun l => label_ok (snd l) = true) ls -> wire_len (map snd ls) <= 255 ->
   exists c', skip_name msg c = Ok c' /\ resume_at (vis msg c) (pos c) (pos c')).
-Print Assumptions C03_read_sound. Print Assumptions C03_skip_sound. Print Assumptions C03_read_total. Print Assumptions C03_skip_total. Print Assumptions C03_reject. Print Assumptions C03_read_complete. Print Assumptions C03_skip_complete.
+Check (C03_oracle_accepts_iff : forall msg p ls r,
+  spec_name msg p = SAccept ls r <-> expands msg None 0 p ls /\ resume_at msg p r).
+Check (C03_oracle_rejects_iff : forall msg p,
+  (exists w, spec_name msg p = SReject w) <-> ~ exists ls, expands msg None 0 p ls).
+Print Assumptions C03_read_sound. Print Assumptions C03_skip_sound. Print Assumptions C03_read_total. Print Assumptions C03_skip_total. Print Assumptions C03_reject. Print Assumptions C03_read_complete. Print Assumptions C03_skip_complete. Print Assumptions C03_oracle_accepts_iff. Print Assumptions C03_oracle_rejects_iff.
